@@ -117,6 +117,45 @@ fn single_overlong_step(c: &Case, prob: &Prob, rtol: Tol, atol: Tol, bound: f64)
     false
 }
 
+/// Second diagnosis: the bound is violated only at a requested output time inside a step that is
+/// long compared with the solution's time scale (h * rate > 1), while every accepted-step end point
+/// satisfies the bound.  The interpolants are of lower order than the step and are not error
+/// controlled; outside the asymptotic range their error can exceed the tolerance (SciPy's dense
+/// output behaves the same).  DESIGN.md section 5, finding K2.
+fn coarse_step_interpolation(c: &Case, prob: &Prob, rtol: Tol, atol: Tol, bound: f64, s_with: &Solution) -> bool {
+    if c.t_eval.is_none() {
+        return false;
+    }
+    let mut c2 = c.clone();
+    c2.t_eval = None;
+    let s = match run_one(&c2, prob, rtol, atol, None) {
+        Ok(s) => s,
+        Err(_) => return false,
+    };
+    for i in 0..s.t.len() {
+        if max_abs_diff(&s.y[i], &prob.exact(s.t[i])) > bound {
+            return false;
+        }
+    }
+    let d = c.span.dir();
+    let rate = prob.rate_t();
+    // every violating requested time must sit strictly inside a coarse step
+    for (t, y) in s_with.t.iter().zip(&s_with.y) {
+        if max_abs_diff(y, &prob.exact(*t)) > bound {
+            let mut ok = false;
+            for w in s.t.windows(2) {
+                if (t - w[0]) * d > 0.0 && (w[1] - t) * d > 0.0 && rate * (w[1] - w[0]).abs() > 1.0 {
+                    ok = true;
+                }
+            }
+            if !ok {
+                return false;
+            }
+        }
+    }
+    true
+}
+
 pub fn check(c: &Case) -> Outcome {
     let sp = &c.span;
     let use_dummy = c.dummy > 0 && matches!(c.mode, TolMode::AbsDom) && c.method != Meth::RK4;
@@ -255,7 +294,13 @@ pub fn check(c: &Case) -> Outcome {
             eprintln!("nacc={} nrej={} nfev={}", s.naccpt, s.nrejct, s.nfev);
         }
         if !emax.is_finite() || emax > bound {
-            let key = if emax.is_finite() && single_overlong_step(c, &prob, rtol_k.clone(), atol_k.clone(), bound) { "C01-overlong-step" } else { "" };
+            let key = if emax.is_finite() && single_overlong_step(c, &prob, rtol_k.clone(), atol_k.clone(), bound) {
+                "C01-overlong-step"
+            } else if emax.is_finite() && coarse_step_interpolation(c, &prob, rtol_k.clone(), atol_k.clone(), bound, &s) {
+                "C01-coarse-step-interpolation"
+            } else {
+                ""
+            };
             return Outcome::viol_key(key, format!(
                 "{}: max error {:e} exceeds {}*kappa*naccpt*tolscale + floor = {:e} (kappa {:.2}, naccpt {}, tolscale {:e}, rung {}, rtol {:?}, atol {:?}, mode {:?})",
                 name, emax, C_BOUND, bound, kappa, s.naccpt, tolscale, rung, rt_v, at_v, c.mode
